@@ -22,6 +22,8 @@ pub const GRMS: &[&str] = &[
     "%start S\n%%\nS: O O 'x';\nO: 'o' | ;",
     "%start S\n%%\nS: S 'x' | ;",
     "%start S\n%%\nS: 'x' S 'y' | 'o';",
+    "%start S\n%%\nS: A 'y';\nA: 'x' E;\nE: ;",
+    "%start S\n%%\nS: A 'y' A;\nA: 'x' O;\nO: 'o' | ;",
 ];
 
 type LT = DefaultLexerTypes<u32>;
@@ -102,21 +104,25 @@ fn inputs(maxlen: usize) -> Vec<String> {
     out
 }
 
+/// the recorded finding (a production whose leading children derive nothing gets a span that starts where the
+/// previous symbol ended): span start before the first lexeme, end as expected
+fn is_leading_class(observed: &str) -> bool {
+    let nums: Vec<usize> = observed.split(|c: char| !c.is_ascii_digit()).filter(|x| !x.is_empty()).filter_map(|x| x.parse().ok()).collect();
+    // "call K (rule R): span A..B but its lexemes span C..D"
+    observed.contains("but its lexemes span") && nums.len() >= 6 && nums[2] < nums[4] && nums[3] == nums[5]
+}
+
 pub fn search(tag: &str, tier: &str) -> Option<Value> {
     let maxlen = if tier == "thorough" { 5 } else { 4 };
-    // the recorded finding (leading empty children) has its own obligation: look for it only there
+    // the recorded finding has its own obligations: witnesses of that kind are only returned for them
     let want_leading = tag.contains("leading_empty");
-    let mut other = None;
     for g in GRMS {
         for i in inputs(maxlen) {
             let o = run(g, &i);
-            if o.fails {
-                let is_zero_len = o.observed.contains("derived no lexeme");
-                let w = witness("c08_span", json!({"grammar": g, "input": i}), &o);
-                if want_leading != is_zero_len { return Some(w); }
-                if other.is_none() { other = Some(w); }
+            if o.fails && is_leading_class(&o.observed) == want_leading {
+                return Some(witness("c08_span", json!({"grammar": g, "input": i}), &o));
             }
         }
     }
-    if want_leading { None } else { other }
+    None
 }
